@@ -274,7 +274,7 @@ class C15(Check):
             k = c.cls + "/" + m.split(" ")[0]
             acc[k] = acc.get(k, 0) + 1
         return {"class_outcome_histogram": acc,
-                "exhaustive": "all strings over {0,1,9,.,-,x,space} up to the stated length, 5 denominations, both types"}
+                "exhaustive_subdomain": "all strings over {0,1,9,.,-,x,space} up to the stated length, 5 denominations, both types"}
 
 
 CHECK = C15()
